@@ -61,8 +61,49 @@ func C09(c *Ctx) {
 	r.Rule("R09.4", "roots over what is stored: the transaction root is computed from the block's own transaction slice and the receipt root from the very receipt slice that is stored with the block; no receipt field covered by Receipt.Hash is stored to after the receipt root was computed.")
 	r.Rule("R09.7", "indexes and head move together: every index entry of a block (tx meta, block hash / height / tx set) and the chain meta are written through the one batch that PersistExecutionResult / RollbackBlockChain commit; no function on that path writes to the chain store directly.")
 	c.chainBatchDiscipline("R09.7")
+	if rm := c.fn("R09.8", chainPrefix+"removeChainDataOnBlock"); rm != nil && len(rm.Params) >= 3 {
+		h := rm.Params[2]
+		fromHeight := func(v ssa.Value) bool {
+			return core.Mentions(v, func(w ssa.Value) bool {
+				if w == ssa.Value(h) {
+					return true
+				}
+				// loaded under that height
+				if cc, ok := w.(*ssa.Call); ok && len(cc.Call.Args) > 0 {
+					for _, a := range cc.Call.Args {
+						if core.Strip(a) == ssa.Value(h) {
+							return true
+						}
+					}
+				}
+				return false
+			})
+		}
+		fromHead := func(v ssa.Value) bool {
+			return core.Mentions(v, func(w ssa.Value) bool {
+				if cc, ok := w.(*ssa.Call); ok && core.CalleeObj(cc) != nil && core.CalleeObj(cc).Name() == "GetChainMeta" {
+					return true
+				}
+				_, f, _, ok := core.FieldOf(w)
+				return ok && f == "chainMeta"
+			})
+		}
+		nd := 0
+		for _, call := range core.Calls(rm) {
+			o := core.CalleeObj(call)
+			if o == nil || o.Name() != "Delete" || !strings.Contains(core.CalleeName(call), "storage.") || len(call.Common().Args) == 0 {
+				continue
+			}
+			nd++
+			key := call.Common().Args[len(call.Common().Args)-1]
+			r.Check(fromHeight(key) && !fromHead(key), "R09.8", fmt.Sprintf("removeChainDataOnBlock: delete #%d is keyed by the removed block", nd), c.P.Pos(call.Pos()), "key built from the height / the block loaded under it",
+				"an index entry is deleted under a key taken from the chain meta (the head) or from something other than the block being removed: when more than one block is rolled back the entries of the lower blocks stay in the index (a block hash keeps resolving to a height that no longer exists)")
+		}
+		r.Floor("R09.8", "deletes in removeChainDataOnBlock", nd, 4)
+	}
 	r.Rule("R09.6", "no stale chain meta: a value read from the old chain meta (height, hash, interchain count) that is stored into the chain meta a function persists / installs (persistChainMeta, UpdateChainMeta) is read after the last update of that field on the path - a copy taken before the removal loop of a rollback misses the loop's subtractions.")
 	r.Rule("R09.5", "interchain count: persisting and rolling back adjust InterchainTxCount by the same function of InterchainMeta.Counter: the sum of len(Slice), every addition into the running count being executed for every element (an increment behind a test of the element counts a subset, and the two sides drift apart).")
+	r.Rule("R09.8", "a removed block takes its own index entries with it: every key that removeChainDataOnBlock deletes is built from the height it was asked to remove or from the block / interchain meta it loaded under that height - never from the chain meta (the head), whose hash belongs to another block as soon as more than one block is rolled back.")
 	r.NotDecided = append(r.NotDecided, "blockfile internals (pinned dependency); value-level equality of stored and recomputed roots")
 
 	cha := core.NewCHA(c.P)
